@@ -142,7 +142,7 @@ func startWorker() *worker {
 	if spec.Race {
 		logPrefix := filepath.Join(buildDir, "race", fmt.Sprintf("log-%d", os.Getpid()))
 		os.MkdirAll(filepath.Dir(logPrefix), 0o755)
-		c.Env = append(c.Env, "GORACE=halt_on_error=0 history_size=3 log_path="+logPrefix, "VERIF_RACE_LOG="+logPrefix)
+		c.Env = append(c.Env, "GORACE=halt_on_error=0 exitcode=0 history_size=3 log_path="+logPrefix, "VERIF_RACE_LOG="+logPrefix)
 	}
 	in, err := c.StdinPipe()
 	if err != nil {
